@@ -6,6 +6,7 @@ import NfpmModel.Lemmas.CpioLemmas
 import NfpmModel.Lemmas.RpmHdrLemmas
 import NfpmModel.Lemmas.PackageLemmas
 import NfpmModel.Lemmas.RpmFilesLemmas
+import NfpmModel.Lemmas.RpmSigLemmas
 import NfpmModel.Digest
 import NfpmModel.Props.C05
 import NfpmModel.Props.C03
@@ -929,6 +930,48 @@ theorem rpm_row_describes_shipped_body (hex256 : Bytes → Bytes) (f : RpmFiles.
     ∧ (RpmFiles.rowOf (RpmFiles.ofBody hex256 f body)).name = f.name
     ∧ (RpmFiles.rowOf (RpmFiles.ofBody hex256 f body)).flags = f.flags :=
   RpmFiles.row_of_body hex256 f body
+
+/-- **rpm: what the package states about its own bytes is computed over the bytes it ships** (C03, C10): take any main
+    header entries and any compressed payload; the model of rpmpack's writeSignatures puts into the signature header the
+    SHA-256 of the main header bytes, the size of main header plus payload and – for a signed package – the signer's
+    output over the main header and over main header ++ payload.  Then a reader of the resulting FILE that knows nothing
+    about how it was made locates a main header region and a payload such that: the SHA256 entry is the hash of exactly
+    that region of the file, the SIZE entry is the length of region plus payload, the RSA entry is the signature over
+    exactly that region and the PGP entry the signature over region ++ payload – for every hash function and signer -/
+theorem rpm_self_description_covers_shipped_bytes (hex256 : Bytes → Bytes) (sign : Option (Bytes → Bytes)) (nv : Bytes)
+    (hdr : List RpmHdr.Entry) (payloadZ : Bytes) (payloadSize : Nat)
+    (hh : RpmHdr.HeaderOK 63 hdr) (h0 : (0 : UInt8) ∉ nv) (hl : nv.length ≤ 65)
+    (hx : ∀ b, (0 : UInt8) ∉ hex256 b) (hsg : ∀ f, sign = some f → ∀ b, (f b).length < 4294967296)
+    (hsz : (RpmHdr.layout (RpmSig.sigEntries hex256 sign (RpmHdr.header 63 hdr) payloadZ payloadSize) []).2.length + 16 < 4294967296) :
+    ∃ f, RpmHdr.readFile (RpmSig.whole hex256 sign nv hdr payloadZ payloadSize) = some f
+      ∧ f.hdr = hdr ∧ f.payload = payloadZ
+      ∧ (RpmSig.whole hex256 sign nv hdr payloadZ payloadSize).drop (f.hdrOff + f.hdrLen) = f.payload
+      ∧ RpmFiles.lookupTag 273 f.sig
+          = some (RpmSig.entStr 273 (hex256 (((RpmSig.whole hex256 sign nv hdr payloadZ payloadSize).drop f.hdrOff).take f.hdrLen)))
+      ∧ RpmFiles.lookupTag 1000 f.sig = some (RpmSig.entI32 1000 (f.payload.length + f.hdrLen))
+      ∧ RpmFiles.lookupTag 1007 f.sig = some (RpmSig.entI32 1007 payloadSize)
+      ∧ (∀ g, sign = some g →
+          RpmFiles.lookupTag 268 f.sig
+            = some (RpmSig.entBin 268 (g (((RpmSig.whole hex256 sign nv hdr payloadZ payloadSize).drop f.hdrOff).take f.hdrLen)))
+          ∧ RpmFiles.lookupTag 1002 f.sig
+            = some (RpmSig.entBin 1002 (g (((RpmSig.whole hex256 sign nv hdr payloadZ payloadSize).drop f.hdrOff).take f.hdrLen ++ f.payload))))
+      ∧ (sign = none → RpmFiles.lookupTag 268 f.sig = none ∧ RpmFiles.lookupTag 1002 f.sig = none) := by
+  refine ⟨_, RpmSig.whole_reads hex256 sign nv hdr payloadZ payloadSize hh h0 hl hx hsg hsz, rfl, rfl, ?_⟩
+  obtain ⟨hreg, hpay⟩ := rpm_header_region nv (RpmSig.sigEntries hex256 sign (RpmHdr.header 63 hdr) payloadZ payloadSize) hdr payloadZ
+  have hw : RpmSig.whole hex256 sign nv hdr payloadZ payloadSize
+      = RpmHdr.file nv (RpmSig.sigEntries hex256 sign (RpmHdr.header 63 hdr) payloadZ payloadSize) hdr payloadZ := rfl
+  rw [hw, hreg, hpay]
+  obtain ⟨l1, l2, l3, l4, l5⟩ := RpmSig.lookup_sig hex256 sign (RpmHdr.header 63 hdr) payloadZ payloadSize
+  exact ⟨rfl, l1, l2, l3, l4, l5⟩
+
+/-- the payload digest of the main header: one string, the hash of the compressed payload – which the reader finds
+    again as the bytes after the header region (previous theorem, `f.payload = payloadZ`) -/
+theorem rpm_payload_digest_entry (hex256 : Bytes → Bytes) (payloadZ : Bytes) (hx : ∀ b, (0 : UInt8) ∉ hex256 b) :
+    RpmFiles.strsOf 5092 (RpmSig.digestEntries hex256 payloadZ) = some [hex256 payloadZ]
+      ∧ RpmFiles.u32sOf 5093 (RpmSig.digestEntries hex256 payloadZ) = some [8] := by
+  constructor
+  · exact RpmFiles.strsOf_ent 5092 [hex256 payloadZ] _ rfl (by intro s hs; simp at hs; subst hs; exact hx _)
+  · exact RpmFiles.u32sOf_ent 5093 [8] _ rfl (by intro n hn; simp at hn; subst hn; decide)
 
 /-- the rpmpack-level file of a planned member (C01's `rpmMember`) and the body nfpm hands over for it: the link
     target for an entry of type symlink, nothing for a directory entry, the bytes read from the source otherwise -/
